@@ -635,6 +635,7 @@ fn case_buffered(cx: &mut Cx, cs: u64) {
     unix_recv.set_read_timeout(Some(Duration::from_millis(500))).unwrap();
     // kernel-made faults: a non-blocking Unix socket whose receiver does not read => EAGAIN once the queue is full
     let kernel_eagain = faults && !udp && r.chance(1, 2);
+    let write_timeout = kernel_eagain && r.chance(1, 6);
     // slow server: an ordinary blocking Unix socket whose receiver's queue is full and drained only slowly - writes
     // wait for room, nothing fails, so everything accepted must arrive exactly once (also what is left at drop)
     let slow_server = !udp && !faults && cap <= 9000 && r.chance(1, 5);
@@ -698,7 +699,13 @@ fn case_buffered(cx: &mut Cx, cs: u64) {
     } else {
         let sock = UnixDatagram::unbound().unwrap();
         if kernel_eagain {
-            sock.set_nonblocking(true).unwrap();
+            if write_timeout {
+                // a BLOCKING socket with a short send timeout: a full receive queue then shows as EAGAIN after 20 ms
+                sock.set_write_timeout(Some(Duration::from_millis(20))).unwrap();
+                cx.rep.obs("blocking_unix_sockets_with_a_send_timeout_and_a_full_receive_queue", 1);
+            } else {
+                sock.set_nonblocking(true).unwrap();
+            }
         }
         fd = sock.as_raw_fd();
         probe = ModeProbe::new(fd);
@@ -710,7 +717,7 @@ fn case_buffered(cx: &mut Cx, cs: u64) {
         cx.rep.obs("socket_mode_changes_seen", 1);
         cx.violation("C13", "socket-left-as-configured", "socket-mode-changed", format!("[{}] after constructing the sink: {}", label, d), jobj! {"sink" => label}, cs);
     }
-    let nops = r.range(5, 70) as usize;
+    let nops = if write_timeout { r.range(5, 24) as usize } else { r.range(5, 70) as usize };
     let mut steps: Vec<Step> = Vec::new();
     let mut fill_hint = 0usize;
     let mut received: Vec<Vec<u8>> = Vec::new();
